@@ -726,7 +726,7 @@ NOTE:
 
 
 from numpy import asarray, choose, zeros, ones, ndarray
-from numpy import shape, broadcast, empty, atleast_1d
+from numpy import shape, broadcast, empty, atleast_1d, result_type
 #from random import sample, choice
 def discrete(samples, index=None):
     """impose a discrete set of input values for the selected function
@@ -1220,6 +1220,7 @@ def bounded(seq, bounds, index=None, clip=True, nearest=True):
       array([0.123     , 1.244     , 2.38186577, 7.41374049, 9.14662911])
 """
     seq = array(seq) #XXX: asarray?
+    if seq.dtype.kind in 'biu': seq = seq.astype('float64') # bounds are floats
     if bounds is None or not bounds: return seq
     from numbers import Integral
     if isinstance(index, Integral): index = (index,)
@@ -1727,6 +1728,8 @@ Examples:
         def func(x, *args, **kwds):
             xtype = type(x)
             x = asarray(list(x)) #XXX: faster to use array(x, copy=True) ?
+            # (an integer vector must be able to hold a fractional target)
+            x = x.astype(result_type(x, asarray(target)), copy=False)
             x[[i for i in index if i < len(x)]] = target
             if not type(x) is xtype: x = xtype(x) #XXX: xtype(x.tolist()) ?
             return f(x, *args, **kwds)
